@@ -208,7 +208,7 @@ example : (run FS.empty (interleave exSched (writeBlockEvs exW).1 (writeBlockEvs
 example : (run FS.empty (interleave exSched (writeBlockEvs exW).1
     (writeBlockEvs { exWB with sfx := exW.sfx }).1)).get (blockPath exH) = some ⟨[2, 3], 7⟩ := by decide
 
-def exPut : PutIn := ⟨exH, exBody, 7, none, [exW], false, false⟩
+def exPut : PutIn := ⟨exH, exBody, 7, none, [exW], false, false, false⟩
 
 -- hypotheses of C02_ack_implies_renamed / C02_put_crash_atomic: an acknowledged PUT over a corrupt copy
 example : (Op.put exPut).valid toyHash := by
@@ -224,6 +224,9 @@ example : (handlePut toyHash (run exCorrupt (handlePut toyHash exCorrupt exPut).
       = .disconnect ∧
     (handlePut toyHash (run exCorrupt (handlePut toyHash exCorrupt exPut).1) { exPut with compareCancelled := true }).1.length
       = 3 := by decide
+-- a full volume: nothing happens beyond Compare and the answer is 503, never 200
+example : (handlePut toyHash FS.empty { exPut with volumeFull := true }).2 = .full ∧
+    (handlePut toyHash FS.empty { exPut with volumeFull := true }).1.length = 1 := by decide
 -- a cancelled request is not acknowledged although the block gets published
 example : (handlePut toyHash exCorrupt { exPut with cancelled := true }).2 = .disconnect := by decide
 
